@@ -952,7 +952,10 @@ def _pi_target(repo, rep):
     ok = len(body) == 1 and body[0][0] is C.MAX_REPEAT and \
         body[0][1][0] >= 1 and body[0][1][1] >= 65535
     cs = rx.all_chars(body)
-    need = rx.CharSet.of("abcxyzABCXYZ0189_-.:")
+    # (... and the name characters beyond ASCII that \\w does not know but
+    # XML -- and Python, at the start of an identifier -- does: U+2118,
+    # U+212E, U+00B7)
+    need = rx.CharSet.of("abcxyzABCXYZ0189_-.:\u2118\u212e\u00b7")
     missing = need - cs
     rep.check(ok and not missing, "R03.3",
               "chameleon.parser.match_processing_instruction",
